@@ -35,6 +35,8 @@ pub struct Side {
 	pub raa_secrets: Vec<[u8; 32]>,
 	pub dust_limit_sat: Option<u64>,
 	pub shutdown_sent: bool,
+	/// this side has sent shutdown in this or an earlier connection
+	pub shutdown_sent_ever: bool,
 	/// htlc ids of update_add_htlc messages this side has ever put on the wire
 	pub add_ids_emitted: std::collections::BTreeSet<u64>,
 }
